@@ -376,6 +376,12 @@ class SB:
     def __bool__(self):
         return engine().decide(self)
 
+    def __int__(self):
+        return int(bool(self))
+
+    def __index__(self):
+        return int(bool(self))
+
     def __and__(self, o):
         if isinstance(o, SB):
             return SB(z3.And(self.e, o.e))
